@@ -397,7 +397,7 @@ def op_pick(stack):
     if len(stack) < 1:
         return False
     n = decode_num(stack.pop())
-    if len(stack) < n + 1:
+    if n < 0 or len(stack) < n + 1:
         return False
     stack.append(stack[-n - 1])
     return True
@@ -407,7 +407,7 @@ def op_roll(stack):
     if len(stack) < 1:
         return False
     n = decode_num(stack.pop())
-    if len(stack) < n + 1:
+    if n < 0 or len(stack) < n + 1:
         return False
     if n == 0:
         return True
